@@ -34,15 +34,20 @@ Rejects(v)          == v.status = "invalid" \/ v.docmod = "true"
 (* ---- edit families of the signature value (/Contents hex string) and of /ByteRange ---- *)
 (* Regions of the decoded value: the signature octets and the document digest are bound    *)
 (* cryptographically; "other" parts of the DER object (versions, unsigned attributes,      *)
-(* unused certificates) and the padding after the DER object are not.                      *)
-BoundRegions == {"sigvalue", "digest"}
-FreeRegions  == {"other", "pad"}
-Regions      == BoundRegions \cup FreeRegions
+(* unused certificates) are not.  "pad" is what follows the DER object inside the hex      *)
+(* string: placeholder padding.  The hex string IS the signature value entry, so a digit   *)
+(* of a different value there (a NON-ZERO byte behind the DER end) modifies the signature  *)
+(* value and must be rejected; value-preserving edits of the padding (hex case, zero by    *)
+(* zero) carry no expectation.                                                             *)
+BoundRegions  == {"sigvalue", "digest"}
+RejectRegions == BoundRegions \cup {"pad"}
+FreeRegions   == {"other"}
+Regions       == RejectRegions \cup FreeRegions
 
 (* expectation of an edit: "reject" = the verdict must not claim valid / unmodified,       *)
 (* "free" = value preserving or not bound: no constraint.                                  *)
 Expect(family, region) ==
     IF family = "brval" THEN "reject"
-    ELSE IF family = "hexval" /\ region \in BoundRegions THEN "reject"
+    ELSE IF family = "hexval" /\ region \in RejectRegions THEN "reject"
     ELSE "free"
 =============================================================================
